@@ -1417,6 +1417,9 @@ pub fn run(tier: &str) -> Report {
             },
             Work::Rejects(pi, a, b) => { let p = &plans[pi]; acc.planned += (b - a) as u64; acc.nontrivial += (b - a) as u64; check_rejects(p.host, &p.rejects[a..b], &mut acc); },
         }
+        // keep the replay detail of the first two failures per signature of this work item only (memory)
+        let mut per: BTreeMap<String, u32> = BTreeMap::new();
+        for f in acc.failures.iter_mut() { let n = per.entry(f.signature.clone()).or_insert(0); *n += 1; if *n > 2 { f.detail = Value::Null; } }
         acc
     });
     let mut total = Acc::default();
